@@ -474,6 +474,23 @@ pub fn paragraph(input: ParseString) -> ParseResult<Paragraph> {
   Ok((input, Paragraph{elements, error_range: None}))
 }
 
+// block-paragraphs := paragraph-newline, *(!blank-line, paragraph-newline) ;
+// The paragraphs of a block element (quote, info, question, ... block, footnote).  A line of blanks only is a
+// blank line: it ends the block instead of being read as a paragraph of blanks that lets the block swallow
+// the lines after it (code included).
+pub fn block_paragraph_continuation(input: ParseString) -> ParseResult<Paragraph> {
+  let (input, _) = is_not(blank_line)(input)?;
+  paragraph_newline(input)
+}
+
+pub fn block_paragraphs(input: ParseString) -> ParseResult<Vec<Paragraph>> {
+  let (input, first) = paragraph_newline(input)?;
+  let (input, mut rest) = many0(block_paragraph_continuation)(input)?;
+  let mut paragraphs = vec![first];
+  paragraphs.append(&mut rest);
+  Ok((input, paragraphs))
+}
+
 // paragraph-newline := +paragraph_element, new_line ;
 pub fn paragraph_newline(input: ParseString) -> ParseResult<Paragraph> {
   let (input, elements) = paragraph(input)?;
@@ -838,7 +855,7 @@ pub fn footnote(input: ParseString) -> ParseResult<Footnote> {
   let (input, _) = right_bracket(input)?;
   let (input, _) = colon(input)?;
   let (input, _) = whitespace0(input)?;
-  let (input, paragraph) = many1(paragraph_newline)(input)?;
+  let (input, paragraph) = block_paragraphs(input)?;
   let mut tokens = text.into_iter().map(|(_,tkn)| tkn).collect::<Vec<Token>>();
   let footnote_text = Token::merge_tokens(&mut tokens).unwrap();
   let footnote = (footnote_text, paragraph);
@@ -864,7 +881,7 @@ pub fn blank_line(input: ParseString) -> ParseResult<Vec<Token>> {
 pub fn question_block(input: ParseString) -> ParseResult<SectionElement> {
   let (input, _) = question_sigil(input)?;
   let (input, _) = many0(space_tab)(input)?;
-  let (input, paragraphs) = many1(paragraph_newline)(input)?;
+  let (input, paragraphs) = block_paragraphs(input)?;
   Ok((input, SectionElement::QuestionBlock(paragraphs)))
 }
 
@@ -872,7 +889,7 @@ pub fn question_block(input: ParseString) -> ParseResult<SectionElement> {
 pub fn info_block(input: ParseString) -> ParseResult<SectionElement> {
   let (input, _) = info_sigil(input)?;
   let (input, _) = many0(space_tab)(input)?;
-  let (input, paragraphs) = many1(paragraph_newline)(input)?;
+  let (input, paragraphs) = block_paragraphs(input)?;
   Ok((input, SectionElement::InfoBlock(paragraphs)))
 }
 
@@ -882,7 +899,7 @@ pub fn quote_block(input: ParseString) -> ParseResult<SectionElement> {
   let (input, _) = peek(is_not(prompt_sigil))(input)?;
   let (input, _) = quote_sigil(input)?;
   let (input, _) = many0(space_tab)(input)?;
-  let (input, paragraphs) = many1(paragraph_newline)(input)?;
+  let (input, paragraphs) = block_paragraphs(input)?;
   Ok((input, SectionElement::QuoteBlock(paragraphs)))
 }
 
@@ -891,7 +908,7 @@ pub fn warning_block(input: ParseString) -> ParseResult<SectionElement> {
   let (input, _) = peek(is_not(float_sigil))(input)?;
   let (input, _) = warning_sigil(input)?;
   let (input, _) = many0(space_tab)(input)?;
-  let (input, paragraphs) = many1(paragraph_newline)(input)?;
+  let (input, paragraphs) = block_paragraphs(input)?;
   Ok((input, SectionElement::WarningBlock(paragraphs)))
 }
 
@@ -900,7 +917,7 @@ pub fn success_block(input: ParseString) -> ParseResult<SectionElement> {
   let (input, _) = peek(is_not(float_sigil))(input)?;
   let (input, _) = alt((success_sigil, success_check_sigil))(input)?;
   let (input, _) = many0(space_tab)(input)?;
-  let (input, paragraphs) = many1(paragraph_newline)(input)?;
+  let (input, paragraphs) = block_paragraphs(input)?;
   Ok((input, SectionElement::SuccessBlock(paragraphs)))
 }
 
@@ -909,7 +926,7 @@ pub fn error_block(input: ParseString) -> ParseResult<SectionElement> {
   let (input, _) = peek(is_not(float_sigil))(input)?;
   let (input, _) = alt((error_sigil, error_alt_sigil))(input)?;
   let (input, _) = many0(space_tab)(input)?;
-  let (input, paragraphs) = many1(paragraph_newline)(input)?;
+  let (input, paragraphs) = block_paragraphs(input)?;
   Ok((input, SectionElement::ErrorBlock(paragraphs)))
 }
 
@@ -917,7 +934,7 @@ pub fn error_block(input: ParseString) -> ParseResult<SectionElement> {
 pub fn idea_block(input: ParseString) -> ParseResult<SectionElement> {
   let (input, _) = idea_sigil(input)?;
   let (input, _) = many0(space_tab)(input)?;
-  let (input, paragraphs) = many1(paragraph_newline)(input)?;
+  let (input, paragraphs) = block_paragraphs(input)?;
   Ok((input, SectionElement::IdeaBlock(paragraphs)))
 }
 
@@ -925,7 +942,7 @@ pub fn idea_block(input: ParseString) -> ParseResult<SectionElement> {
 pub fn abstract_el(input: ParseString) -> ParseResult<SectionElement> {
   let (input, _) = abstract_sigil(input)?;
   let (input, _) = many0(space_tab)(input)?;
-  let (input, paragraphs) = many1(paragraph_newline)(input)?;
+  let (input, paragraphs) = block_paragraphs(input)?;
   Ok((input, SectionElement::Abstract(paragraphs)))
 }
 
